@@ -12,6 +12,7 @@ mod engine;
 mod gen;
 mod oracle;
 mod props;
+mod refapi;
 
 use engine::{Report, Tier};
 use serde_json::{json, Value};
@@ -202,6 +203,16 @@ fn main() {
                 }
             }
         }
+        "gen-golden" => match props::c06::generate_golden() {
+            Ok(n) => {
+                println!("wrote {} rows to {}", n, props::c06::golden_path().display());
+                std::process::exit(0);
+            }
+            Err(e) => {
+                eprintln!("harness: {}", e);
+                std::process::exit(2);
+            }
+        },
         "child" => {
             // helper sub-processes (C13 fresh-process races, C14 limited child)
             std::process::exit(props::child(&args[2..]));
